@@ -51,7 +51,7 @@ vars == <<val, cfg>>
 \* class : width in bytes of its members : meaning               (palette: harness/cmd/tokenize/main.go)
 Classes == {"lo", "up", "dg", "us", "st", "sp", "dd", "sl", "dq", "sq", "bt", "bs",
             "nl", "nu", "d2", "d3", "nd", "no", "ns", "iv", "l4", "u4", "n4", "s4",
-            "cr", "lf", "ws", "z0", "cc", "pu"}
+            "cr", "lf", "ws", "z0", "cc", "pu", "s2"}
 W == [lo |-> 1,   \* ASCII lower-case letter
       up |-> 1,   \* ASCII upper-case letter
       dg |-> 1,   \* ASCII digit
@@ -84,6 +84,7 @@ W == [lo |-> 1,   \* ASCII lower-case letter
       ws |-> 1,   \* the other ASCII white space bytes tab, vertical tab, form feed (skipped BETWEEN lexemes, strings.TrimSpace)
       z0 |-> 1,   \* the NUL byte
       cc |-> 1,   \* every other control byte 0x01..0x08, 0x0E..0x1F, 0x7F (strconv.Quote escapes them, strict JSON rejects them raw)
+      s2 |-> 2,   \* 2-byte rune that is neither letter nor number: no-break space, NEL (a C1 control and white space), soft hyphen, signs
       pu |-> 3]   \* U+E000: the private-use rune the SeqQL lexer itself puts in place of an unescaped '*' (wildcardRune)
 Word   == {"lo", "up", "dg", "us", "st", "nl", "nu", "d2", "d3", "nd", "no", "l4", "u4", "n4"}   \* letters, numbers, '_', '*'
 Cased  == {"up", "nu", "d2", "d3", "no", "ns", "u4"}                           \* lower-casing may change the rune (some members)
